@@ -5,6 +5,7 @@ import A2Verif.Lemmas.FsFatFormat
 import A2Verif.Lemmas.FsFatPutStep
 import A2Verif.Lemmas.FsFatRetype
 import A2Verif.Lemmas.FsFatSubDir
+import A2Verif.Lemmas.FsFatMkdirStep
 import A2Verif.Props.C01
 import A2Verif.Props.C04
 import A2Verif.Props.C19
@@ -812,7 +813,7 @@ theorem subdir_writeback_exact {d : Disk} {f : Array Nat} (g : Geo d) (w : WOk d
       cl[idx / epcOf d.bpb]? = some c ∧
       (∀ u, u ∉ List.range' (d.bpb.firstClusterSec c) d.bpb.spc → d'.raw.units[u]? = d.raw.units[u]?) ∧
       dirOfBytes (chainData d' cl) = (dirOfBytes (chainData d cl)).set idx e' := by
-  obtain ⟨r', c, h1, _, _, h4, h5, h6⟩ := writebackSub_spec g w h hnd hidx he
+  obtain ⟨r', c, h1, _, _, h4, h5, h6, _⟩ := writebackSub_spec g w h hnd hidx he
   exact ⟨{ d with raw := r' }, c, h1, rfl, rfl, h4, h5, h6⟩
 
 /-- non-vacuity, without evaluation: the cluster loop of a three-chunk `put` on the formatted example volume leaves a state
@@ -855,6 +856,67 @@ example : ∃ (d : Disk) (f : Array Nat) (c1 : Nat) (cl : List Nat), Geo d ∧ W
   refine ⟨d1, f1, c0, cl, g1, o.wok, by rw [hb]; exact hchain, o.nodup, o.len, ?_, ?_⟩
   · rw [hlen, o.len]; unfold epcOf; rw [hb, hspc]; omega
   · unfold epcOf; rw [hb, hspc]
+
+/-! ## directories: `create` at root level, `delete` of a file in a first-level directory -/
+
+/-- **`create` (mkdir) refines** (C02, C03, C04, C05): for a state satisfying the invariant, a root-level name (any case) that
+is not blank (`absPath p ≠ []`: the reader lists the files of a directory without a name as if they were in the root) and
+a two-byte clock, `create(p)` followed by the flush preserves the invariant and is a step the specification allows: refused
+without any change (invalid name, unreadable root, name in use, root directory full, no free cluster), or exactly one new
+record — a directory under `absPath p` owning one previously free cluster, nothing below it — and the new directory is a
+well-formed first-level directory (`SubDirOk`: its entry is found under its key, its cluster is a one-element link chain,
+its entries are `.`, `..` and end marks) -/
+theorem mkdir_step {d d' : Disk} {p : Bytes} {now : Stamp} {res : R Unit} (inv : Inv d) (a : RootArg p) (hs : StampOk now)
+    (hname : absPath p ≠ []) (h : runFlush (mkdir p now) d = (res, d')) :
+    Inv d' ∧ stepOk fatParams (volOf d) (.mkdir (absPath p)) (okB res) (volOf d') = true ∧
+      (okB res = true → ∃ f' E1 e' E2 nc, SubDirOk d' p f' E1 e' E2 [nc]) := by
+  have hwf := (inv_reads_well_formed inv).2.1
+  rcases mkdir_step_core inv a hs hname h with ⟨er, h1, h2⟩ |
+    ⟨h1, inv', f', E1, e', E2, nc, F1, F2, free', sd, hv, hgf, hnd, hfree, hpn, hpath, hvol⟩
+  · subst h1 h2
+    exact ⟨inv, stepOk_refused_same hwf _, fun hc => by cases hc⟩
+  · subst h1
+    refine ⟨inv', ?_, fun _ => ⟨f', E1, e', E2, nc, sd⟩⟩
+    rw [hvol, ← hpath]
+    exact stepOk_mkdir_inserted (g := dirRecOf e' [nc]) hv hwf (by simp [dirRecOf])
+      (by intro x hx; simp [dirRecOf] at hx; rw [hx]; exact hgf) hnd hfree (by show entPath [] e' ∉ _; rw [hpath]; exact hpn)
+      (by simp [dirRecOf]) rfl
+
+/-- **`delete` of a file in a first-level directory refines** (C02, C04, C05): for a state satisfying the invariant in which
+`D` is a well-formed first-level directory (`SubDirOk`; `mkdir_step` establishes it, this theorem and the `put` below keep it),
+names `D`, `X` in any case (`SubArg`), the record `D/X` not being a directory: `delete("D/X")` followed by the flush preserves
+the invariant and `SubDirOk`, and is a step the specification allows: refused without any change (`X` missing, read-only, the
+directory unreadable), or the entry is erased **in its own cluster of `D`** (`subdir_writeback_exact`), its clusters become
+free, and every other record — in the root, in `D`, elsewhere — and the record of `D` itself are read exactly as before -/
+theorem delete_sub_step {d d' : Disk} {D X : Bytes} {res : R Unit} (inv : Inv d) (a : SubArg D X) {f : Array Nat}
+    {E1 E2 : List Bytes} {eD : Bytes} {cl : List Nat} (sd : SubDirOk d D f E1 eD E2 cl)
+    (hfile : ∀ rec, (volOf d).lookup (absPath D ++ 47 :: absPath X) = some rec → rec.isDir = false)
+    (h : runFlush (delete (subPath D X)) d = (res, d')) :
+    Inv d' ∧ (∃ f', SubDirOk d' D f' E1 eD E2 cl) ∧
+      stepOk fatParams (volOf d) (.delete (absPath D ++ 47 :: absPath X)) (okB res) (volOf d') = true := by
+  have hwf := (inv_reads_well_formed inv).2.1
+  rcases delete_sub_step_core inv a sd hfile h with ⟨er, h1, h2⟩ | ⟨h1, inv', sd', F1, F2, rec, free', hv, hp, hl, hnd, hfree, hvol⟩
+  · subst h1 h2
+    exact ⟨inv, ⟨f, sd⟩, stepOk_refused_same hwf _⟩
+  · subst h1
+    refine ⟨inv', sd', ?_⟩
+    rw [hvol, ← hp]
+    exact stepOk_delete_removed hv hwf hnd hfree hl
+
+/-- non-vacuity: `mkdir D` on the formatted example volume is accepted (one kernel evaluation of the run), so `mkdir_step`
+yields a state with `Inv` in which `D` is a well-formed first-level directory — the hypotheses of `delete_sub_step` for
+`D/A.B` -/
+def exD : Bytes := [68]
+def exDiskD : Disk := (runFlush (mkdir exD exStamp) exDisk0).2
+
+theorem exD_arg : RootArg exD := { ne := by decide, noSlash := by decide, noStar := by decide, noQ := by decide, len := by decide }
+
+theorem exDiskD_ok : Inv exDiskD ∧ ∃ f' E1 e' E2 nc, SubDirOk exDiskD exD f' E1 e' E2 [nc] := by
+  have hacc : okB (runFlush (mkdir exD exStamp) exDisk0).1 = true := by decide +kernel
+  have h := mkdir_step exDisk0_inv exD_arg exStamp_ok (by decide +kernel) (prod_eta (runFlush (mkdir exD exStamp) exDisk0))
+  exact ⟨h.1, h.2.2 hacc⟩
+
+example : SubArg exD exName := { aD := exD_arg, aX := exName_arg, len := by decide, keyX := by decide +kernel }
 
 /-! ## a file image with a hole is refused before anything is written (fix 7da7b06) -/
 
